@@ -89,9 +89,10 @@ func seqnoInvalid(seqno, reference uint16) bool {
 	return false
 }
 
-// set sets a bit in the bitmap, shifting if necessary
-func (bitmap *bitmap) set(seqno uint16) {
-	if !bitmap.valid || seqnoInvalid(seqno, bitmap.first) {
+// set sets a bit in the bitmap, shifting if necessary.  If restart is
+// true, the bitmap is restarted at seqno.
+func (bitmap *bitmap) set(seqno uint16, restart bool) {
+	if !bitmap.valid || restart {
 		bitmap.first = seqno
 		bitmap.bitmap = 1
 		bitmap.valid = true
@@ -158,7 +159,8 @@ func (cache *Cache) Store(seqno uint16, timestamp uint32, keyframe bool, marker 
 	cache.mu.Lock()
 	defer cache.mu.Unlock()
 
-	if !cache.lastValid || seqnoInvalid(seqno, cache.last) {
+	restart := !cache.lastValid || seqnoInvalid(seqno, cache.last)
+	if restart {
 		cache.last = seqno
 		cache.lastValid = true
 		cache.expected++
@@ -182,7 +184,7 @@ func (cache *Cache) Store(seqno uint16, timestamp uint32, keyframe bool, marker 
 			}
 		}
 	}
-	cache.bitmap.set(seqno)
+	cache.bitmap.set(seqno, restart)
 
 	if keyframe {
 		cache.keyframe = seqno
